@@ -408,7 +408,7 @@ func checkRangeReadsGuarded(p *Prog, r *Roles, ck *compactKeyRole, res *Result) 
 		f := fr.f
 		// floor-check calls in f with compact=false whose error returns early
 		type guard struct {
-			call *ssa.Call
+			call         *ssa.Call
 			okEdgeBlocks func(b *ssa.BasicBlock) bool
 		}
 		var guards []guard
